@@ -26,6 +26,10 @@ def one(ctx, C, Pc, tol, kind, meta):
 
 def _one(ctx, C, Pc, tol, kind, meta):
     drv = ctx.driver()
+    if tol == "default":
+        ctx.count("tol:library-default")
+        out = _one(ctx, C, Pc, None, kind, meta)
+        return out
     rec = {}
     opq = C._pq_completion
 
@@ -36,17 +40,22 @@ def _one(ctx, C, Pc, tol, kind, meta):
     C._pq_completion = pq
     try:
         with core.quiet():
-            g = C.completion_from_root_finding(np.array(Pc), coef_type="P", tol=tol)
+            if tol is None:          # the library's documented default (1e-6), not passed
+                g = C.completion_from_root_finding(np.array(Pc), coef_type="P")
+            else:
+                g = C.completion_from_root_finding(np.array(Pc), coef_type="P", tol=tol)
         out = ("ok", g)
     except Exception as e:  # noqa
         out = (type(e).__name__, str(e)[:60])
     finally:
         C._pq_completion = opq
+    called_with = tol
+    tol = 1e-6 if tol is None else tol
     ctx.count("outcome:" + out[0])
     ctx.count("kind:" + kind)
     d = len(Pc) - 1
     ctx.case([[(z.real, z.imag) for z in Pc], tol], True, dict(meta, degree=d, kind=kind, tol=tol, outcome=out[0]))
-    replay = dict(meta, poly_re=[float(z.real) for z in Pc], poly_im=[float(z.imag) for z in Pc], tol=tol, kind=kind)
+    replay = dict(meta, poly_re=[float(z.real) for z in Pc], poly_im=[float(z.imag) for z in Pc], tol=tol, kind=kind, tol_left_to_library_default=(called_with is None))
     if out[0] != "ok":
         return out
     g = out[1]
@@ -93,6 +102,8 @@ def run(tier, seed):
             ph, style = P.corner_phases(rng, n, style=(None if rep < reps else ["nearly-real", "chebyshev", "mirror"][rep - reps]))
             Pc = P.corner_poly(ph)
             tol = float(rng.choice([1e-6, 1e-6, 1e-4, 1e-8, 1e-10, 1e-12, 1e-14]))
+            if rng.random() < 0.25:
+                tol = "default"
             r = rng.random()
             if rep >= reps:          # the structured styles are there for what is RETURNED: keep them achievable, mostly default tol
                 r = 0.0
@@ -101,8 +112,11 @@ def run(tier, seed):
                 kind = "achievable"
             elif r < 0.7:
                 kind = "not-a-corner:barely"          # |P(+-1)| = 1 - 1e-7 : only a tight tol can tell
-                Pc = Pc * (1 - 1e-7)
-                tol = float(rng.choice([1e-9, 1e-10]))
+                if tol == "default":
+                    Pc = Pc * (1 - float(rng.choice([1e-4, 3e-5, 1e-5])))       # only the DEFAULT tolerance (1e-6) can tell
+                else:
+                    Pc = Pc * (1 - 1e-7)
+                    tol = float(rng.choice([1e-9, 1e-10]))
             elif r < 0.85:
                 kind = "not-a-corner:scaled"
                 Pc = Pc * float(rng.choice([0.5, 0.8, 1.3]))
@@ -129,7 +143,7 @@ def replay(path):
     ctx = core.Ctx(PROP, "quick", c.get("seed", 0), "translation_validation", ["C05", "C05b"])
     import pyqsp.completion as C
     Pc = [complex(a, b) for a, b in zip(c["poly_re"], c["poly_im"])]
-    out = one(ctx, C, Pc, c["tol"], c.get("kind", "?"), {})
+    out = one(ctx, C, Pc, ("default" if c.get("tol_left_to_library_default") else c["tol"]), c.get("kind", "?"), {})
     print("outcome:", out[0])
     for sig, what, p, _ in ctx.violations:
         print("REPRODUCED %s: %s" % (sig, what))
